@@ -40,6 +40,12 @@ func newWriter(n *drv.Node, name string, pageSize uint32, wal bool, jmode string
 		d.WALMode = isWal
 	}
 	w := &dbWriter{n: n, name: name, d: d, wal: wal, jmode: jmode, rng: rng, led: led, owner: owner}
+	// Record the intended image under the position it will get, before the commit
+	// step runs: a commit whose acknowledgement is lost may still take effect.
+	d.OnIntent = func(im *ref.Image) {
+		p := mon.PosOf(n, name)
+		led.put(name, mon.PosKey{TXID: p.TXID + 1, Chk: im.Checksum()}, im)
+	}
 	conn, err := d.Open(owner)
 	if err != nil {
 		return nil, err
